@@ -28,9 +28,12 @@ func (k declKind) String() string {
 	return k.id + k.content + p
 }
 
-func c19Kinds() []declKind {
+func c19Kinds(ids ...string) []declKind {
 	var out []declKind
-	for _, id := range []string{"a", "b", "c"} {
+	if len(ids) == 0 {
+		ids = []string{"a", "b", "c"}
+	}
+	for _, id := range ids {
 		for _, ct := range []string{"x", "y"} {
 			for _, p := range []bool{false, true} {
 				out = append(out, declKind{id, ct, p})
@@ -142,7 +145,7 @@ func canonicalArrangement(seq []declKind) []declKind {
 
 func C19(tier string) *evid.Report {
 	r := evid.NewReport("C19", tier)
-	r.Rule = "every sequence of declarations up to length L over {a,b,c}x{x,y}x{prio,not} and every distinct arrangement of multisets of size 13..16 over <=3 kinds (content a function of the ID); a case is the sequence itself; non-trivial = at least two declarations with >=2 distinct IDs or a repeated ID"
+	r.Rule = "every sequence of declarations up to length L over {a,b,c}x{x,y}x{prio,not}, every sequence up to length L-1 over {empty,a,b}x{x,y}x{prio,not}, and every distinct arrangement of multisets of size 13..16 over <=3 kinds (content a function of the ID); a case is the sequence itself; non-trivial = at least two declarations with >=2 distinct IDs or a repeated ID"
 	r.Assumptions = []string{"the in-place sort of the argument slice is not part of the property"}
 	maxLen, capArr := 5, 4000
 	if tier == "thorough" {
@@ -204,6 +207,12 @@ func C19(tier string) *evid.Report {
 		}
 	}
 	rec(nil)
+	// the same with the empty string among the IDs (it is an ID like any other), one level shorter
+	kinds = c19Kinds("", "a", "b")
+	maxLen--
+	rec(nil)
+	maxLen++
+	kinds = c19Kinds()
 	short := r.Evaluations
 
 	// long multisets: content is a function of ID => 6 kinds
@@ -316,10 +325,12 @@ func init() {
 		txt, _ := f.Extra["decls"].(string)
 		var seq []declKind
 		for _, w := range strings.Fields(txt) {
-			if len(w) != 3 {
-				continue
+			switch len(w) {
+			case 3:
+				seq = append(seq, declKind{id: w[0:1], content: w[1:2], prio: w[2] == 'T'})
+			case 2: // empty ID
+				seq = append(seq, declKind{id: "", content: w[0:1], prio: w[1] == 'T'})
 			}
-			seq = append(seq, declKind{id: w[0:1], content: w[1:2], prio: w[2] == 'T'})
 		}
 		out := c19Call(append([]declKind{}, seq...))
 		if cl, det := c19Clauses12(seq, out); cl != "" {
